@@ -439,6 +439,110 @@ def replay(cand):
     return None, "exception candidate"
 
 
+# ----------------------------------------------------------------------
+# "byte order present wherever it matters", with $default scoping -- through the whole front end
+# ----------------------------------------------------------------------
+
+BO_TYPES = {
+    # name: (type text for a 2-byte-or-so field, width in bytes, needs a byte order in scope, attribute allowed)
+    "UInt 1 byte": ("UInt", 1, False, True),
+    "UInt 2 bytes": ("UInt", 2, True, True),
+    "Int 4 bytes": ("Int", 4, True, True),
+    "array of bytes": ("UInt:8[2]", 2, False, True),
+    "array of 16-bit": ("UInt:16[2]", 4, True, True),
+    "structure": ("Leaf", 2, False, False),
+}
+
+
+def byte_order_module(ty, module_default, before_default, main_default, field_attr):
+    t, w, _, _ = BO_TYPES[ty]
+    lines = []
+    if module_default:
+        lines.append('[$default byte_order: "LittleEndian"]')
+    lines += ["struct Leaf:", "  0 [+1]  UInt  p", "  1 [+1]  UInt  q"]
+    lines += ["struct Before:"]
+    if before_default:
+        lines.append('  [$default byte_order: "BigEndian"]')
+    lines += ["  0 [+1]  UInt  z"]
+    lines += ["struct Main:"]
+    if main_default:
+        lines.append('  [$default byte_order: "LittleEndian"]')
+    lines += ["  struct Nested:", "    0 [+%d]  %s  inner" % (w, t)]
+    lines += ["  0 [+%d]  %s  f" % (w, t)]
+    if field_attr:
+        lines.append('    [byte_order: "BigEndian"]')
+    lines += ["struct After:", "  0 [+%d]  %s  g" % (w, t)]
+    return "\n".join(lines) + "\n"
+
+
+def run_byte_order(res):
+    """Finite domain: every combination of (field type, module default, default on an unrelated earlier
+    structure, default on the enclosing structure, attribute on the field).  Documented rule: a field of a
+    bit-addressed type wider than one byte needs a byte order from its own attribute, or from a $default of an
+    entity that encloses it (structure, module) -- never from a sibling; the attribute is not allowed on a
+    field that is not byte-order dependent."""
+    import itertools
+    from compiler.front_end import glue, emboss_front_end
+    real = emboss_front_end._find_in_dirs_and_read([common.REPO])
+    combos = list(itertools.product(BO_TYPES, [0, 1], [0, 1], [0, 1], [0, 1]))
+    holder = {}
+
+    def body(c):
+        k = c.choose(len(combos), "combo")
+        holder["k"] = k
+        text = byte_order_module(*combos[k])
+
+        def rd(name):
+            return (text, None) if name == "probe.emb" else real(name)
+
+        ir, _, errors = glue.parse_emboss_file("probe.emb", rd)
+        return errors
+
+    def on_path(pr):
+        res["paths"] += 1
+        res["obligations"] += 1
+        ty, md, bd, sd, fa = combos[holder["k"]]
+        _, _, needs, allowed = BO_TYPES[ty]
+        ok_f = (fa or sd or md or not needs) and (allowed or not fa)
+        ok_inner = sd or md or not needs
+        ok_after = md or not needs
+        want_accept = bool(ok_f and ok_inner and ok_after)
+        cand = {"harness": "byte-order", "values": {"type": ty, "module_default": md, "default_on_earlier_sibling": bd,
+                                                    "default_on_enclosing_structure": sd, "field_attribute": fa},
+                "text": byte_order_module(ty, md, bd, sd, fa)}
+        if pr.kind == "raise":
+            res["candidates"].append(dict(cand, what="front end crashed: %s: %s" % (type(pr.exc).__name__, str(pr.exc)[:100])))
+            return
+        errors = pr.value
+        res["witness"]["byte-order:" + ("rejected" if errors else "accepted")] = True
+        if bool(errors) == want_accept:
+            msg = errors[0][0].message if errors else ""
+            res["candidates"].append(dict(cand, what="%s although the documented rule says %s%s" % (
+                "rejected" if errors else "accepted", "accept" if want_accept else "reject", (": " + msg) if msg else ""),
+                rejected=bool(errors)))
+        else:
+            res["discharged"] += 1
+
+    pysym.explore(body, on_path, max_paths=1000)
+
+
+def replay_byte_order(cand):
+    from compiler.front_end import glue, emboss_front_end
+    real = emboss_front_end._find_in_dirs_and_read([common.REPO])
+    text = cand["text"]
+
+    def rd(name):
+        return (text, None) if name == "cand.emb" else real(name)
+
+    try:
+        ir, _, errors = glue.parse_emboss_file("cand.emb", rd)
+    except Exception as e:  # pylint: disable=broad-except
+        return True, "front end crashed with %s on\n%s" % (type(e).__name__, text)
+    if "rejected" not in cand:
+        return False, "front end %s" % ("rejects" if errors else "accepts")
+    return bool(errors) == cand["rejected"], "front end %s:\n%s" % ("rejects" if errors else "accepts", text)
+
+
 def main(tier):
     rep = common.Report("C14", tier, "proof")
     try:
@@ -461,6 +565,11 @@ def main(tier):
             rep.harness_error("%s: %s" % (name, g))
         except Exception as e:  # pylint: disable=broad-except
             rep.harness_error("%s: %s" % (name, "".join(traceback.format_exception(type(e), e, e.__traceback__))[-900:]))
+    names.append("byte-order")
+    try:
+        run_byte_order(res)
+    except Exception as e:  # pylint: disable=broad-except
+        rep.harness_error("byte-order: %s" % "".join(traceback.format_exception(type(e), e, e.__traceback__))[-900:])
     for u in res["unknown"]:
         rep.inconclusive_item(u)
     seen = set()
@@ -469,6 +578,14 @@ def main(tier):
         if sig in seen:
             continue
         seen.add(sig)
+        if cand["harness"] == "byte-order":
+            ok, observed = replay_byte_order(cand)
+            if ok:
+                rep.violation({"harness": "byte-order", "decision": cand["what"][:8]},
+                              "C14 byte order: %s for %s; %s" % (cand["what"], cand["values"], observed), cand)
+            else:
+                rep.harness_error("candidate did not reproduce: %r (%s)" % (cand["values"], observed))
+            continue
         ok, observed = replay(cand)
         key = {"harness": cand["harness"], "decision": cand["what"][:8]}
         if ok is None:
@@ -504,7 +621,8 @@ def main(tier):
                               "constraints._check_type_requirements_for_field", "constraints._check_that_array_base_types_in_structs_are_multiples_of_bytes",
                               "attribute_checker._verify_width_attribute_on_enum", "attribute_checker._add_missing_width_and_sign_attributes_on_enum"],
         "bounds": {"numbers": "unbounded integers (maximum_bits 1..64 enumerated by the code's own 2**n)",
-                   "outside": "attribute placement/duplication tables, reserved words, byte-order presence, 'no byte-oriented members in bits' (finite tables without a numeric variable)"},
+                   "byte order": "finite domain: 6 field types x module default x default on an earlier sibling x default on the enclosing structure x field attribute, through the whole front end",
+                   "outside": "attribute placement/duplication tables, reserved words, 'no byte-oriented members in bits' (finite tables without a numeric variable)"},
     })
     rep.assumptions += ["the numeric thresholds of the property; table-driven rules are outside the claim"]
     return rep.finish()
@@ -549,6 +667,12 @@ def replay_unit(cand, base_ir):
 def replay_file(path):
     with open(path) as f:
         obj = json.load(f)
+    if obj["replay"].get("harness") == "byte-order":
+        ok, observed = replay_byte_order(obj["replay"])
+        print("replay %s: %s -> %s" % (path, "REPRODUCED" if ok else "did not reproduce", observed))
+        if ok:
+            print("VIOLATION property=C14 replay=%s" % path)
+        return 1 if ok else 0
     if obj["replay"].get("harness") == "base-module":
         try:
             load_ir()
